@@ -277,6 +277,12 @@ def _r194(ctx: Ctx) -> None:
         dict(data_dir='D', sizes='3,4', decoder_class='MatchingDecoder', bias='Y', eta='30,100', prob='0.02,0.04,0.06',
              code_class='Toric2DCode', noise_class='PauliErrorModel', deformation_name=None, method='splitting',
              label='split'),
+        # ratios whose decimal strings are close relatives (1.5 / 15 / 0.15, 3 / 30 / 0.3 ...) and a grid starting at
+        # the rate 0: every ratio keeps its own file, every rate (the falsy 0.0 too) its own simulation
+        dict(data_dir='D', sizes='3', decoder_class='MatchingDecoder', bias='Z',
+             eta='0.5,1.5,15,0.15,1,10,100,0.1,3,30,0.3,5,0.05,50,inf', prob='0:0.1:0.05',
+             code_class='Toric2DCode', noise_class='PauliErrorModel', deformation_name=None, method='direct',
+             label='grid'),
     ]
     for ri, req in enumerate(requests):
         hooks = _HGen()
